@@ -1,6 +1,11 @@
 import WfProofs.EngineIdle
 import WfProofs.EngineTelemetry
 import WfModel.Runner
+import WfProofs.RunnerAnnounce
+import WfModel.GenIdleShape
+import WfModel.GenLifecycleShape
+import WfModel.GenLifecycle
+import WfModel.Lifecycle
 /-!
 # C03 — queued work never stalls; idleness is reported only when truly idle
 
@@ -135,3 +140,585 @@ example :
     let r := C03.reach C03.w2Cfg (fun _ _ _ _ => .stop) initState 0
       [(.addEvent { ev := C03.xEv } none, 0), (.addEvent { ev := { C03.xEv with uid := 3 } } none, 0)]
     (r.2, ((r.1.workers 1).queue.length, (r.1.workers 1).inProg.length)) = (false, (1, 1)) := by decide
+
+/-! # The runner level: every reachable state of every run, fresh or resumed
+
+`C03.runFrom` starts a run as `_ControlLoopRunner.__init__` + the head of `run()` do (rehydrate,
+queue the start event, schedule the timeout, **rewind** the state the run is resumed from) and then
+follows an arbitrary schedule of the loop's actions.  `st0` is the state handed to the loop: the
+fresh `BrokerState.from_workflow`, or whatever a snapshot / tick replay produced. -/
+
+abbrev C03.runFrom (cfg : Cfg) (pol : Policy) (st0 : State) (now : Int) (start : Option Ev)
+    (timeout : Option Nat) (acts : List Act) : Runner :=
+  Runner.run cfg pol (Runner.init cfg st0 now start timeout) acts
+
+/-- **Work conservation at every reachable runner state, also for resumed runs**: whatever state
+the run is started from (no assumption on `st0`: the rewind repairs it), with or without a start
+event or timeout, after any schedule — as long as the run has no outcome, a step with a non-empty
+queue has exactly `num_workers` invocations in progress. -/
+theorem C03_work_conserving_runner (cfg : Cfg) (hwf : cfg.WF) (pol : Policy) (st0 : State) (now : Int)
+    (start : Option Ev) (timeout : Option Nat) (acts : List Act)
+    (hlive : (C03.runFrom cfg pol st0 now start timeout acts).outcome = none) :
+    ∀ c ∈ cfg.steps,
+      ((C03.runFrom cfg pol st0 now start timeout acts).st.workers c.name).queue ≠ [] →
+        ((C03.runFrom cfg pol st0 now start timeout acts).st.workers c.name).inProg.length = c.numWorkers := by
+  have hi : IdsInv cfg (C03.runFrom cfg pol st0 now start timeout acts).st := by
+    apply run_idsInv cfg hwf pol
+    rw [init_st]; exact rewind_idsInv_fresh cfg hwf st0 now
+  have hq : QInv cfg (C03.runFrom cfg pol st0 now start timeout acts).st := by
+    apply run_qInv cfg hwf pol acts _ _ hlive
+    intro _
+    rw [init_st]
+    intro c hc
+    unfold rewind
+    exact rewindLoop_qOk now (sortedSteps cfg) st0 []
+      ((sortedSteps_names_perm cfg).nodup_iff.mpr hwf) c (mem_sortedSteps_iff.mpr hc)
+  intro c hc hne
+  exact Nat.le_antisymm (hi c hc).length_le (hq c hc hne)
+
+/-- **The rewind, exactly** (resumed runs): per step, the pending invocations of the state a run is
+resumed from are its former in-progress rows (each re-inserted at the head of the queue, hence
+reversed) followed by its former queue; the first `min(num_workers, #pending)` are started, in
+that order, the others stay queued in order.  Nothing is lost or duplicated and no slot stays
+free while an invocation waits. -/
+theorem C03_rewind_exact (cfg : Cfg) (hwf : cfg.WF) (st0 : State) (now : Int) (c : StepCfg)
+    (hc : c ∈ cfg.steps) :
+    let pending := ((st0.workers c.name).inProg.map inProgToAttempt).reverse ++ (st0.workers c.name).queue
+    let k := min c.numWorkers pending.length
+    let ss := (rewind cfg st0 now).1.workers c.name
+    ss.inProg.map (·.ev) = (pending.take k).map (·.ev) ∧ ss.queue = pending.drop k ∧
+      ss.inProg.length = k ∧ ss.collected = (st0.workers c.name).collected ∧
+      ss.waiters = (st0.workers c.name).waiters := by
+  intro pending k ss
+  have hs : ss = (rewindStep c (st0.workers c.name) now).1 := rewind_spec cfg hwf st0 now c hc
+  obtain ⟨h1, h2, h3, h4, h5⟩ := rewindStep_spec c (st0.workers c.name) now
+  rw [hs]
+  exact ⟨h2, h1, h3, h4, h5⟩
+
+/-- **In-progress means live** (the converse of C01's clause 1): in every reachable state of an open
+run every in-progress row of a configured step is backed by a live worker task with that step and
+worker id — or its own result tick is the (only) tick in the buffer, about to be reduced — or a
+`StopEvent` result is in the buffer (the runner has cancelled all tasks; the next reduction ends the
+run, `C02_stop_result_ends_run`).  A row is never a stale mark. -/
+theorem C03_in_progress_is_live (cfg : Cfg) (hwf : cfg.WF) (pol : Policy) (st0 : State)
+    (now : Int) (start : Option Ev) (timeout : Option Nat) (acts : List Act)
+    (hlive : (C03.runFrom cfg pol st0 now start timeout acts).outcome = none) :
+    ∀ c ∈ cfg.steps, ∀ ip ∈ ((C03.runFrom cfg pol st0 now start timeout acts).st.workers c.name).inProg,
+      (∃ x ∈ (C03.runFrom cfg pol st0 now start timeout acts).running, x.step = c.name ∧ x.wid = ip.wid) ∨
+      (∃ ev res, (C03.runFrom cfg pol st0 now start timeout acts).buf = [.stepResult c.name ip.wid ev res]) ∨
+      (∃ s w ev res, (C03.runFrom cfg pol st0 now start timeout acts).buf = [.stepResult s w ev res] ∧
+        hasStopResult res = true) := by
+  intro c hc ip hip
+  exact (reach_c03Inv cfg hwf pol st0 now start timeout acts).live hlive c.name
+    (List.mem_map_of_mem hc) ip hip
+
+/-- **Queued work runs at the full worker limit, for real**: whenever the loop is waiting (empty
+buffer: the only states in which time passes) and a step has queued events, exactly `num_workers`
+worker tasks of that step are alive. -/
+theorem C03_full_limit_live (cfg : Cfg) (hwf : cfg.WF) (pol : Policy) (st0 : State)
+    (now : Int) (start : Option Ev) (timeout : Option Nat) (acts : List Act)
+    (hlive : (C03.runFrom cfg pol st0 now start timeout acts).outcome = none)
+    (hwait : (C03.runFrom cfg pol st0 now start timeout acts).buf = []) :
+    ∀ c ∈ cfg.steps,
+      ((C03.runFrom cfg pol st0 now start timeout acts).st.workers c.name).queue ≠ [] →
+        ((C03.runFrom cfg pol st0 now start timeout acts).running.filter (fun w => w.step == c.name)).length
+          = c.numWorkers := by
+  intro c hc hne
+  have hI := reach_c03Inv cfg hwf pol st0 now start timeout acts
+  have hcount := C03_work_conserving_runner cfg hwf pol st0 now start timeout acts hlive c hc hne
+  unfold C03.runFrom at hlive hwait hne hcount ⊢
+  generalize Runner.run cfg pol (Runner.init cfg st0 now start timeout) acts = r at *
+  have hn1 : ((r.running.filter (fun w => w.step == c.name)).map (·.wid)).Nodup :=
+    nodup_wids_of_slots c.name r.running hI.run.nodup
+  have hn2 : (usedIds (r.st.workers c.name)).Nodup := (hI.run.ids c hc).1
+  have hsub1 : (r.running.filter (fun w => w.step == c.name)).map (·.wid) ⊆ usedIds (r.st.workers c.name) := by
+    intro w hw
+    obtain ⟨x, hx, rfl⟩ := List.mem_map.mp hw
+    obtain ⟨hxr, hxs⟩ := List.mem_filter.mp hx
+    have hxs' : x.step = c.name := by simpa using hxs
+    obtain ⟨_, ip, hip, hwid, _⟩ := hI.run.sub x hxr
+    rw [hxs'] at hip
+    exact mem_usedIds.mpr ⟨ip, hip, hwid⟩
+  have hsub2 : usedIds (r.st.workers c.name) ⊆ (r.running.filter (fun w => w.step == c.name)).map (·.wid) := by
+    intro w hw
+    obtain ⟨ip, hip, rfl⟩ := mem_usedIds.mp hw
+    obtain ⟨x, hx, hxs, hxw⟩ := hI.live.of_buf_ne hlive (by intro _ _ _ _ hb; rw [hwait] at hb; cases hb)
+      c.name (List.mem_map_of_mem hc) ip hip
+    exact List.mem_map.mpr ⟨x, List.mem_filter.mpr ⟨hx, by simp [hxs]⟩, hxw⟩
+  have l1 := List.Nodup.length_le_of_subset hn1 hsub1
+  have l2 := List.Nodup.length_le_of_subset hn2 hsub2
+  simp only [List.length_map, usedIds] at l1 l2
+  omega
+
+/-- **The deferred idle check, exactly**: in every reachable state `_idle_check_pending` is true
+exactly when a `TickIdleCheck` is in the tick buffer; there is at most one, it is the last tick of
+the buffer (everything buffered is reduced before it), and neither the timer heap nor the mailbox
+ever holds one. -/
+theorem C03_idle_check_exact (cfg : Cfg) (hwf : cfg.WF) (pol : Policy) (st0 : State)
+    (now : Int) (start : Option Ev) (timeout : Option Nat) (acts : List Act) :
+    let r := C03.runFrom cfg pol st0 now start timeout acts
+    (r.idlePending = true ↔ Tick.idleCheck ∈ r.buf) ∧ r.buf.count .idleCheck ≤ 1 ∧
+      (∀ pre post, r.buf = pre ++ Tick.idleCheck :: post → post = []) ∧
+      (∀ tm ∈ r.heap, tm.tick ≠ .idleCheck) ∧ (∀ t ∈ r.mailbox, t ≠ .idleCheck) := by
+  intro r
+  have hI := (reach_c03Inv cfg hwf pol st0 now start timeout acts).idle
+  refine ⟨?_, ?_, ?_, fun tm htm => isTimerKind_ne_idleCheck (hI.heap tm htm),
+    fun t ht => isExternal_ne_idleCheck (hI.mbox t ht)⟩
+  · rcases hI.form with ⟨hp, hn⟩ | ⟨hp, pre, hb, hn⟩
+    · constructor
+      · intro h; rw [hp] at h; cases h
+      · intro h; exact absurd rfl (hn _ h)
+    · constructor
+      · intro _; rw [hb]; simp
+      · intro _; exact hp
+  · rcases hI.form with ⟨hp, hn⟩ | ⟨hp, pre, hb, hn⟩
+    · rw [List.count_eq_zero_of_not_mem (fun h => absurd rfl (hn _ h))]; omega
+    · rw [hb, List.count_append, List.count_eq_zero_of_not_mem (fun h => absurd rfl (hn _ h))]
+      simp
+  · intro pre' post hb'
+    rcases hI.form with ⟨hp, hn⟩ | ⟨hp, pre, hb, hn⟩
+    · exact absurd rfl (hn .idleCheck (by rw [hb']; simp))
+    · rw [hb] at hb'
+      -- `pre ++ [ic] = pre' ++ ic :: post` with no `ic` in `pre`
+      cases post with
+      | nil => rfl
+      | cons q post' =>
+        exfalso
+        have hlen := congrArg List.length hb'
+        simp only [List.length_append, List.length_cons, List.length_nil] at hlen
+        have hmem : Tick.idleCheck ∈ pre := by
+          have h1 : pre' ++ Tick.idleCheck :: q :: post' = (pre' ++ [Tick.idleCheck]) ++ (q :: post') := by simp
+          rw [h1] at hb'
+          have h2 := List.append_eq_append_iff.mp hb'
+          rcases h2 with ⟨a', ha1, ha2⟩ | ⟨c', hc1, hc2⟩
+          · -- pre' ++ [ic] = pre ++ a', [ic] = a' ++ q :: post'
+            cases a' with
+            | nil => rw [List.append_nil] at ha1; rw [← ha1]; simp
+            | cons x xs =>
+              exfalso
+              simp only [List.cons_append, List.cons.injEq] at ha2
+              have : xs ++ q :: post' = [] := ha2.2.symm
+              simp at this
+          · rw [hc1]; simp
+        exact absurd rfl (hn _ hmem)
+
+/-! ## The strongest true idle theorem on the runner, and the two exceptions, exactly -/
+
+/-- **Idle announcements on the runner**: take any reachable state `r` of any run and any action
+`a` of the loop (a step's own stream write may not forge an idle announcement), and suppose the
+action appends `new` to the published stream with an idle announcement (`WorkflowIdleEvent`, or
+`UnhandledEvent(idle=True)`) in it.  Then in the state `r'` right after it
+* the action was a `drain`: only the loop itself announces;
+* the run is marked running and every step's queue and in-progress table are empty;
+* **no worker task is alive**;
+* the announcement queued nothing: the buffer is what was behind the announcing tick, plus at most
+  the idle check; it holds no step result;
+* for `WorkflowIdleEvent` the buffer is **empty** and the idle-check flag is down.
+What may still be pending is therefore confined to the timer heap and the mailbox (and, for
+`UnhandledEvent(idle=True)`, the rest of the batch the unhandled event arrived in) — see
+`C03_idle_exceptions_exact`. -/
+theorem C03_idle_runner_sound (cfg : Cfg) (hwf : cfg.WF) (pol : Policy) (st0 : State)
+    (now : Int) (start : Option Ev) (timeout : Option Nat) (acts : List Act)
+    (a : Act) (ha : ∀ p, a = .stepWrite p → p.isIdleAnn = false) (new : List Pub)
+    (hnew : ((C03.runFrom cfg pol st0 now start timeout acts).step cfg pol a).stream
+      = (C03.runFrom cfg pol st0 now start timeout acts).stream ++ new)
+    (hidle : new.any Pub.isIdleAnn = true) :
+    let r := C03.runFrom cfg pol st0 now start timeout acts
+    let r' := r.step cfg pol a
+    a = .drain ∧
+    r'.st.isRunning = true ∧
+    (∀ c ∈ cfg.steps, (r'.st.workers c.name).queue = [] ∧ (r'.st.workers c.name).inProg = []) ∧
+    r'.running = [] ∧
+    (r'.buf = r.buf.tail ∨ r'.buf = r.buf.tail ++ [.idleCheck]) ∧
+    (∀ t ∈ r'.buf, t.isStepResult = false) ∧
+    (Pub.idle ∈ new → r'.buf = [] ∧ r'.idlePending = false) := by
+  intro r r'
+  have hI : C03Inv cfg r := reach_c03Inv cfg hwf pol st0 now start timeout acts
+  have hI' : C03Inv cfg r' := step_c03Inv cfg hwf pol r a hI
+  have hne : new ≠ [] := by intro h; rw [h] at hidle; cases hidle
+  rcases step_stream cfg pol r a with hs | ⟨p, rfl, hs⟩ | ⟨t, rest, rfl, ho, hb, hc, he⟩
+  · exfalso
+    have : r.stream ++ new = r.stream ++ [] := by rw [← hnew, List.append_nil]; exact hs
+    exact hne (List.append_cancel_left this)
+  · exfalso
+    have : r.stream ++ new = r.stream ++ [p] := by rw [← hnew]; exact hs
+    have hn := List.append_cancel_left this
+    rw [hn] at hidle
+    simp only [List.any_cons, List.any_nil, Bool.or_false] at hidle
+    rw [ha p rfl] at hidle; cases hidle
+  · obtain ⟨new', hs1, hs2⟩ := execCmds_stream (reduce cfg pol t r.st r.now).2
+      (r.logged t rest (reduce cfg pol t r.st r.now).1)
+    have hnn : new = new' := by
+      have : r.stream ++ new = r.stream ++ new' := by
+        rw [← hnew]; show (r.step cfg pol .drain).stream = _; rw [he]; exact hs1
+      exact List.append_cancel_left this
+    subst hnn
+    obtain ⟨p, hp, hpi⟩ := List.any_eq_true.mp hidle
+    have hany : (reduce cfg pol t r.st r.now).2.any isIdlePub = true :=
+      List.any_eq_true.mpr ⟨_, hs2 p hp, by rw [isIdlePub_publish]; exact hpi⟩
+    have hquiet := checkIdle_quiet (reduce_idle_quiet cfg pol t r.st r.now hany)
+    have hst : r'.st = (reduce cfg pol t r.st r.now).1 := by
+      show (r.step cfg pol .drain).st = _; rw [he, execCmds_st]; rfl
+    have hnsr : t.isStepResult = false := reduce_idlePub_not_stepResult cfg pol t r.st r.now hany
+    obtain ⟨_, extra, _, hx2, hx3⟩ := drain_shape cfg pol False r t rest hI.run hb hI.idle.form
+    have hextra := hx2 hnsr
+    rw [hextra, List.append_nil] at hx3
+    have hbuf' : r'.buf = rest ∨ r'.buf = rest ++ [.idleCheck] := by
+      show (r.step cfg pol .drain).buf = _ ∨ (r.step cfg pol .drain).buf = _
+      rw [he]; exact hx3
+    have hrest : ∀ x ∈ rest, x.isStepResult = false := by
+      rcases hI.run.buf with hn | ⟨s, w, ev, res, hb', _⟩
+      · intro x hx; exact hn x (by rw [hb]; simp [hx])
+      · rw [hb] at hb'; simp only [List.cons.injEq] at hb'
+        rw [hb'.2]; intro x hx; cases hx
+    refine ⟨rfl, ?_, ?_, ?_, ?_, ?_, ?_⟩
+    · rw [hst]; exact hquiet.1
+    · rw [hst]; exact hquiet.2
+    · apply List.eq_nil_iff_forall_not_mem.mpr
+      intro x hx
+      obtain ⟨hname, ip, hip, _, _⟩ := hI'.run.sub x hx
+      obtain ⟨c, hc', hcn⟩ := List.mem_map.mp hname
+      have := (hquiet.2 c hc').2
+      rw [hst, ← hcn, this] at hip
+      cases hip
+    · rw [hb]; exact hbuf'
+    · intro x hx
+      rcases hbuf' with h | h
+      · rw [h] at hx; exact hrest x hx
+      · rw [h] at hx
+        rcases List.mem_append.mp hx with hx | hx
+        · exact hrest x hx
+        · simp only [List.mem_singleton] at hx; subst hx; rfl
+    · intro hidlepub
+      have htick : t = .idleCheck := reduce_pub_idle_tick cfg pol t r.st r.now (hs2 _ hidlepub)
+      subst htick
+      have hf := hI.idle.form
+      rw [hb] at hf
+      have hrest0 : rest = [] := hf.pop.2.1 rfl
+      subst hrest0
+      show (r.step cfg pol .drain).buf = [] ∧ (r.step cfg pol .drain).idlePending = false
+      rw [he]
+      simp only [reduce]
+      split <;> simp [execCmds, execCmd, Runner.logged]
+
+/-- **The two exceptions, exactly.**  When `WorkflowIdleEvent` is announced, the run is *not* truly
+idle (`C03.TrulyIdle`: something can still happen without new external input) **iff** a delayed retry
+waits in the timer heap (known finding `C03/idle_with_pending_retry_timer`, `C03_refuted_timer`)
+or an event already sent to the run waits in the mailbox (known finding
+`C03/idle_with_undelivered_event`, `C03_refuted_mailbox`).  Nothing else: the buffer is empty, no
+task is alive, queues and in-progress tables are empty (`C03_idle_runner_sound`); the heap holds only
+delayed retries, waiter timeouts and the run's timeout, the mailbox only what another party put. -/
+theorem C03_idle_exceptions_exact (cfg : Cfg) (hwf : cfg.WF) (pol : Policy) (st0 : State)
+    (now : Int) (start : Option Ev) (timeout : Option Nat) (acts : List Act)
+    (a : Act) (ha : ∀ p, a = .stepWrite p → p.isIdleAnn = false) (new : List Pub)
+    (hnew : ((C03.runFrom cfg pol st0 now start timeout acts).step cfg pol a).stream
+      = (C03.runFrom cfg pol st0 now start timeout acts).stream ++ new)
+    (hidle : Pub.idle ∈ new) :
+    let r' := (C03.runFrom cfg pol st0 now start timeout acts).step cfg pol a
+    (C03.TrulyIdle r' = false ↔
+      (r'.heap.any (fun t => C03.isAddEvent t.tick) = true ∨ r'.mailbox.any C03.isAddEvent = true)) ∧
+    (∀ tm ∈ r'.heap, tm.tick.isTimerKind = true) ∧ (∀ t ∈ r'.mailbox, t.isExternal = true) := by
+  intro r'
+  have hany : new.any Pub.isIdleAnn = true := List.any_eq_true.mpr ⟨_, hidle, rfl⟩
+  obtain ⟨_, _, _, _, _, _, hb⟩ :=
+    C03_idle_runner_sound cfg hwf pol st0 now start timeout acts a ha new hnew hany
+  have hbuf : r'.buf = [] := (hb hidle).1
+  have hI' : C03Inv cfg r' := step_c03Inv cfg hwf pol _ a (reach_c03Inv cfg hwf pol st0 now start timeout acts)
+  refine ⟨?_, hI'.idle.heap, hI'.idle.mbox⟩
+  simp only [C03.TrulyIdle, hbuf, List.any_nil, Bool.not_false, Bool.and_true]
+  cases h1 : r'.heap.any (fun t => C03.isAddEvent t.tick) <;> cases h2 : r'.mailbox.any C03.isAddEvent <;> simp
+
+/-! ### `UnhandledEvent(idle=True)`: why the empty-buffer clause is claimed for `WorkflowIdleEvent` only
+
+For the `UnhandledEvent(idle=True)` form `C03_idle_runner_sound` leaves "the rest of the batch the unhandled tick
+arrived in" in the buffer, and that rest can be pending work: W3 below.  A two-worker step hands `collect_events` an
+event of a type it does not accept; the collect re-run therefore runs with that event (C01's guarded clause); the re-run
+fails and is retried after 3 s — and so is another invocation of the step, due at the same instant.  The timer puts both
+retries into the buffer; the first is not accepted by its own step, so `UnhandledEvent(idle=True)` is published — with the
+other due retry still buffered, nothing in the heap, nothing in the mailbox.  A third way, distinct from the two known
+findings, in which an idle announcement is made while a retry waits; it replays on the real engine (reported; spec in
+`harness/corpus/c03_unhandled_idle_batch.json`). -/
+
+def C03.w3Cfg' : Cfg := { steps := [{ name := 0, accepted := [0], numWorkers := 2, hasRetry := true }] }
+def C03.plain0 (u : Nat) : Ev := { ty := 0, kind := .plain, uid := u }
+def C03.foreign (u : Nat) : Ev := { ty := 9, kind := .plain, uid := u }
+def C03.w3Acts' : List Act :=
+  [.drain,
+   .external (.addEvent { ev := C03.plain0 2 } none), .pull, .drain,
+   .workerDone 0 0 [.addCollected 1 (C03.foreign 7)], .drain,
+   .workerDone 0 1 [.addCollected 1 (C03.foreign 8)], .drain,
+   .workerDone 0 1 [.failed 7 0], .drain, .drain,
+   .external (.addEvent { ev := C03.plain0 3 } none), .pull, .drain,
+   .workerDone 0 0 [.failed 7 0], .drain, .drain,
+   .advance 3, .timer]
+
+/-- W3: `UnhandledEvent(idle=True)` announced with a due retry in the tick buffer (heap and mailbox empty, no task alive) -/
+theorem C03_refuted_unhandled_batch :
+    let r := C03.runFrom C03.w3Cfg' (fun _ _ _ _ => .retry 3) initState 0 (some C03.startEv) none C03.w3Acts'
+    let r' := r.step C03.w3Cfg' (fun _ _ _ _ => .retry 3) .drain
+    r'.stream = r.stream ++ [.unhandled 9 (some 0) true] ∧ r'.heap = [] ∧ r'.mailbox = [] ∧ r'.running = [] ∧
+      r'.buf.any C03.isAddEvent = true ∧ C03.TrulyIdle r' = false := by decide
+
+/-- **Truly idle is quiescent**: after a `WorkflowIdleEvent` announcement with an empty timer heap
+and an empty mailbox, whatever the loop tries on its own (drain, pull, timer, a worker finishing,
+time passing — everything but an external `send_event`) changes nothing but the clock: only new
+external input can make anything happen. -/
+theorem C03_truly_idle_is_quiescent (cfg : Cfg) (hwf : cfg.WF) (pol : Policy) (st0 : State)
+    (now : Int) (start : Option Ev) (timeout : Option Nat) (acts : List Act)
+    (a : Act) (ha : ∀ p, a = .stepWrite p → p.isIdleAnn = false) (new : List Pub)
+    (hnew : ((C03.runFrom cfg pol st0 now start timeout acts).step cfg pol a).stream
+      = (C03.runFrom cfg pol st0 now start timeout acts).stream ++ new)
+    (hidle : Pub.idle ∈ new) (more : List Act) (hint : ∀ b ∈ more, b.isInternal = true) :
+    let r' := (C03.runFrom cfg pol st0 now start timeout acts).step cfg pol a
+    r'.heap = [] → r'.mailbox = [] → r'.sameButClock (Runner.run cfg pol r' more) := by
+  intro r' hh hm
+  have hany : new.any Pub.isIdleAnn = true := List.any_eq_true.mpr ⟨_, hidle, rfl⟩
+  obtain ⟨_, _, _, hrun, _, _, hb⟩ :=
+    C03_idle_runner_sound cfg hwf pol st0 now start timeout acts a ha new hnew hany
+  exact run_quiescent cfg pol more r' hint (hb hidle).1 hrun hh hm
+
+/-! Non-vacuity of the runner-level theorems -/
+
+/-- a two-worker step with three events delivered: two invocations live, one queued, the loop waiting -/
+def C03.w3Cfg : Cfg := { steps := [{ name := 1, accepted := [5], numWorkers := 2, hasRetry := false }] }
+def C03.w3Acts : List Act :=
+  [.external (.addEvent { ev := { C03.xEv with uid := 1 } } none), .pull, .drain,
+   .external (.addEvent { ev := { C03.xEv with uid := 2 } } none), .pull, .drain,
+   .external (.addEvent { ev := { C03.xEv with uid := 3 } } none), .pull, .drain]
+
+example : C03.w3Cfg.WF := by simp [Cfg.WF, Cfg.names, C03.w3Cfg]
+example :
+    let r := C03.runFrom C03.w3Cfg (fun _ _ _ _ => .stop) initState 0 none none C03.w3Acts
+    (r.outcome.isNone, r.buf.length, ((r.st.workers 1).queue.length, (r.st.workers 1).inProg.length),
+      (r.running.filter (fun w => w.step == 1)).length) = (true, 0, (1, 2), 2) := by decide
+
+/-- a resumed state: three in-progress rows (more than the step now has workers) and one queued event -/
+def C03.resumedState : State :=
+  { isRunning := true,
+    workers := fun s => if s = 1 then
+      { queue := [{ ev := { C03.xEv with uid := 9 } }],
+        inProg := [{ ev := { C03.xEv with uid := 1 }, wid := 0, snapEvents := [], snapWaiters := [], attempts := 0, firstAt := 0 },
+                   { ev := { C03.xEv with uid := 2 }, wid := 1, snapEvents := [], snapWaiters := [], attempts := 1, firstAt := 0 },
+                   { ev := { C03.xEv with uid := 3 }, wid := 2, snapEvents := [], snapWaiters := [], attempts := 0, firstAt := 0 }] }
+      else {} }
+
+example :
+    let ss := (rewind C03.w3Cfg C03.resumedState 5).1.workers 1
+    (ss.inProg.map (·.ev.uid), ss.queue.map (·.ev.uid)) = ([3, 2], [1, 9]) := by decide
+
+example :
+    let r := C03.runFrom C03.w3Cfg (fun _ _ _ _ => .stop) C03.resumedState 5 none none []
+    (r.outcome.isNone, (r.st.workers 1).queue.length, r.running.map (fun w => (w.wid, w.ev.uid))) =
+      (true, 2, [(0, 3), (1, 2)]) := by decide
+
+/-- the idle check is buffered behind the tick that made the state quiet, and the flag is up -/
+example :
+    let r := C03.runFrom C03.w2Cfg (fun _ _ _ _ => .stop) initState 0 (some C03.startEv) none
+      [.drain, .workerDone 0 0 [.result none], .drain]
+    (r.buf, r.idlePending) = ([Tick.idleCheck], true) := by decide
+
+/-- a truthful announcement: the step returns `None`, the idle check is reduced, `WorkflowIdleEvent`
+is published with nothing left anywhere — the hypotheses of `C03_idle_runner_sound`,
+`C03_idle_exceptions_exact` and `C03_truly_idle_is_quiescent` hold on this run -/
+example :
+    let r := C03.runFrom C03.w2Cfg (fun _ _ _ _ => .stop) initState 0 (some C03.startEv) none
+      [.drain, .workerDone 0 0 [.result none], .drain]
+    let r' := r.step C03.w2Cfg (fun _ _ _ _ => .stop) .drain
+    r'.stream = r.stream ++ [.idle] ∧ C03.TrulyIdle r' = true ∧ r'.heap = [] ∧ r'.mailbox = [] ∧
+      r'.running = [] ∧ r'.buf = [] := by decide
+
+/-! # The anchored source, as found on this run
+
+`harness/gen/idle_shape.py` re-reads `_check_idle_state`, the loops that refill free worker slots, the
+deferred idle check and the server's idle marker from the current sources into `WfModel/GenIdleShape.lean`:
+conditions are *translated* into Lean functions, statement skeletons are emitted as text.  The theorems
+below say that the model the C03 theorems are about IS that code; an edit of any of these places
+(another field in the quiescence test, another refill condition or guard, an idle check scheduled or
+reset elsewhere, another event treated as "idle" by the server) stops them from checking. -/
+
+theorem C03.all_and_eq (l : List Nat) (q p : Nat → Bool) :
+    l.all (fun s => q s && p s) = !(l.any fun s => (!q s || !p s)) := by
+  induction l with
+  | nil => rfl
+  | cons x xs ih => simp only [List.all_cons, List.any_cons, ih]; cases q x <;> cases p x <;> simp
+
+/-- the model's quiescence test is `_check_idle_state` as written: not running ⇒ not idle; otherwise
+idle iff no step is busy, where "busy" is the translated per-step test of the source -/
+theorem C03_check_idle_is_source (cfg : Cfg) (st : State) :
+    checkIdle cfg st = (st.isRunning && !(cfg.names.any fun s =>
+      GenIdleShape.stepBusy (!(st.workers s).queue.isEmpty) (!(st.workers s).inProg.isEmpty)
+        (!(st.workers s).waiters.isEmpty) (!(st.workers s).collected.isEmpty))) := by
+  unfold checkIdle
+  congr 1
+  simp only [stepQuiet, GenIdleShape.stepBusy]
+  exact C03.all_and_eq _ _ _
+
+/-- the model's refill loop (`drain`, used by the rewind and after every step result) stops and
+continues exactly under the source's loop conditions, the two loops have the same condition, the
+step-result loop is skipped exactly when the tick ends the run, and an event starts at once exactly
+under the source's `has_space` -/
+theorem C03_refill_guard_is_source :
+    (∀ (step nw : Nat) (now : Int) (fuel : Nat) (ss : StepState),
+      GenIdleShape.rewindDrainContinues ss.queue.length ss.inProg.length nw = false →
+        drain step nw now fuel ss = (ss, [])) ∧
+    (∀ (step nw : Nat) (now : Int) (fuel : Nat) (ss : StepState),
+      GenIdleShape.resultDrainContinues ss.queue.length ss.inProg.length nw = true →
+        ∃ a q, ss.queue = a :: q ∧ drain step nw now (fuel + 1) ss =
+          ((drain step nw now fuel (addOrEnqueue a step { ss with queue := q } nw now).1).1,
+            (addOrEnqueue a step { ss with queue := q } nw now).2 ++
+              (drain step nw now fuel (addOrEnqueue a step { ss with queue := q } nw now).1).2)) ∧
+    (∀ a b c, GenIdleShape.rewindDrainContinues a b c = GenIdleShape.resultDrainContinues a b c) ∧
+    (∀ ic dc sn, GenIdleShape.resultDrainGuard ic dc sn = !ic) ∧
+    GenIdleShape.isCompletedExpr = "len([x for x in commands if indicates_exit(x)]) > 0" ∧
+    (∀ (att : Attempt) (step : Nat) (ss : StepState) (nw : Nat) (now : Int),
+      (GenIdleShape.hasSpace ss.queue.length ss.inProg.length nw = false →
+        addOrEnqueue att step ss nw now =
+          ({ ss with queue := ss.queue ++ [att] }, [.publish (.stepState .preparing step att.ev.ty .unset none)])) ∧
+      (GenIdleShape.hasSpace ss.queue.length ss.inProg.length nw = true →
+        (addOrEnqueue att step ss nw now).1.queue = ss.queue)) := by
+  refine ⟨?_, ?_, fun _ _ _ => rfl, fun _ _ _ => rfl, rfl, ?_⟩
+  · intro step nw now fuel ss h
+    cases fuel with
+    | zero => rfl
+    | succ f =>
+      unfold drain
+      split
+      · rfl
+      · rename_i a q hq
+        simp only [GenIdleShape.rewindDrainContinues, hq, List.length_cons, Bool.and_eq_false_iff,
+          decide_eq_false_iff_not] at h
+        split
+        · rename_i hlt; omega
+        · rfl
+  · intro step nw now fuel ss h
+    simp only [GenIdleShape.resultDrainContinues, Bool.and_eq_true, decide_eq_true_eq] at h
+    cases hq : ss.queue with
+    | nil => rw [hq] at h; simp at h
+    | cons a q =>
+      refine ⟨a, q, rfl, ?_⟩
+      rw [drain]
+      simp only [hq, h.2, ↓reduceIte]
+  · intro att step ss nw now
+    simp only [GenIdleShape.hasSpace, decide_eq_false_iff_not, decide_eq_true_eq]
+    constructor
+    · intro h; unfold addOrEnqueue; rw [if_neg h]
+    · intro h; unfold addOrEnqueue; rw [if_pos h]; split <;> rfl
+
+/-- the skeletons of the anchored code, and the model clauses that transcribe them -/
+theorem C03_source_shape :
+    -- `_check_idle_state`
+    GenIdleShape.checkIdleSkeleton = ["if not v0.is_running", "return False", "endif",
+      "for v1 in v0.workers.values()", "if v1.queue or v1.in_progress", "return False", "endif", "endfor",
+      "return True"] ∧
+    -- `_reduce_tick`: the `TickIdleCheck` branch, the idle check scheduled after every other tick
+    GenIdleShape.idleCheckBranch = ["if _check_idle_state(v0)",
+      "return (v0, [CommandPublishEvent(WorkflowIdleEvent())])", "endif", "return (v0, [])"] ∧
+    (∀ cfg pol st now, reduce cfg pol .idleCheck st now =
+      if checkIdle cfg st then (st, [.publish .idle]) else (st, [])) ∧
+    GenIdleShape.reduceTail = ["if _check_idle_state(v0)", "v1.append(CommandScheduleIdleCheck())", "endif",
+      "return (v0, v1)"] ∧
+    GenIdleShape.idleEventBuiltIn = ["_reduce_tick"] ∧
+    GenIdleShape.unhandledIdleArgs = ["_check_idle_state(state)"] ∧
+    -- `process_command`: at most one idle check buffered
+    GenIdleShape.scheduleIdleCheckBranch = ["if not self._idle_check_pending",
+      "self.tick_buffer.append(TickIdleCheck())", "self._idle_check_pending = True", "endif", "return None"] ∧
+    (∀ r : Runner, execCmd r .scheduleIdleCheck =
+      if r.idlePending then r else { r with buf := r.buf ++ [.idleCheck], idlePending := true }) ∧
+    -- `run()`: FIFO drain; the flag goes down when the idle check is taken off the buffer
+    GenIdleShape.drainLoop = ["while self.tick_buffer", "v0 = self.tick_buffer.pop(0)",
+      "if isinstance(v0, TickIdleCheck)", "self._idle_check_pending = False", "endif",
+      "v1 = await self._process_tick(v0)", "if v1 is not None", "return v1", "endif", "endwhile"] ∧
+    -- `rewind_in_progress`
+    GenIdleShape.rewindFacts = ["iter:sorted-by-name", "requeue:.queue.insert@0 for .in_progress",
+      "carried:attempts,event,first_attempt_at,last_exception,last_failed_at,recovery_counts",
+      "assign:.in_progress=[]", "while:pop@0->_add_or_enqueue_event"] ∧
+    (∀ c ss now, rewindStep c ss now = drain c.name c.numWorkers now
+      ((ss.inProg.map inProgToAttempt).reverse ++ ss.queue).length
+      { ss with queue := (ss.inProg.map inProgToAttempt).reverse ++ ss.queue, inProg := [] }) ∧
+    -- the server side (idle_release_runtime.py): only `WorkflowIdleEvent` marks the run idle
+    -- (`UnhandledEvent(idle=True)` does not); the mark is written before the event is forwarded and the
+    -- release timer is armed after; a release needs idle_since set, `idle_timeout` elapsed since it and the
+    -- run still active; a send to an active run withdraws the mark
+    GenIdleShape.idleMarkClasses = ["WorkflowIdleEvent"] ∧
+    GenLifecycleShape.shape_ir_write = ["if(;WorkflowIdleEvent)", "call(datetime.now)",
+      "await(self._store.update_handler_status;status='running',idle_since=*)", "endif", "call(super)",
+      "await(super().write_to_event_stream)", "if(;WorkflowIdleEvent)", "call(self._runtime._deferred_release)",
+      "call(self._runtime._spawn_task)", "endif"] ∧
+    GenLifecycleShape.shape_ir_deferred = ["await(asyncio.sleep)", "await(self._release_idle_handler)"] ∧
+    GenLifecycleShape.shape_ir_release = ["with(self._reload_lock)", "await(self._store.query)",
+      "if(Is,NotEq,Or;idle_since,None)", "return", "endif", "call(?.total_seconds)", "call(datetime.now)",
+      "if(Lt;_idle_timeout)", "return", "endif", "if(NotIn;_active_run_ids)", "return", "endif",
+      "call(self._abort_inner_run)", "call(self._active_run_ids.discard)", "endwith"] ∧
+    (∀ a b, GenLifecycle.elapsedTooShort a b = decide (a < b)) ∧
+    GenLifecycleShape.shape_ir_send = ["with(self._runtime._reload_lock)",
+      "if(NotIn;_active_run_ids,_runtime,run_id)", "await(self._runtime._ensure_active_run_locked)", "else",
+      "await(self._runtime._store.update_handler_status;idle_since=None)", "endif",
+      "await(self._decorated.send_event)", "endwith"] := by
+  refine ⟨by decide, by decide, fun _ _ _ _ => rfl, by decide, by decide, by decide, by decide,
+    fun _ => rfl, by decide, by decide, fun _ _ _ => rfl, by decide, by decide, by decide, by decide,
+    fun _ _ => rfl, by decide⟩
+
+/-- non-vacuity: the translated busy test separates a busy step from a quiet one, the refill
+condition a full step from one with a free slot -/
+example : GenIdleShape.stepBusy true false false false = true ∧ GenIdleShape.stepBusy false false true true = false ∧
+    GenIdleShape.rewindDrainContinues 2 1 2 = true ∧ GenIdleShape.rewindDrainContinues 2 2 2 = false ∧
+    GenIdleShape.hasSpace 0 1 2 = true := by decide
+
+/-! # The server side of the property, on model M7
+
+`WfModel/Lifecycle.lean` (A) is the `IdleReleaseDecorator` with every await-free section as an action; C26 / C36
+tie it action by action to the real in-process stack.  The three theorems below are what C03 needs from it:
+what the server *treats as idle* and *when it releases* on the strength of it.  They are single-step facts, for
+every state (reachable or not) and every action. -/
+
+theorem C03.release_idleSince (s : Lifecycle.S) (t : Nat) : (Lifecycle.release s t).idleSince = s.idleSince := by
+  unfold Lifecycle.release; simp only; split <;> rfl
+
+/-- **What the server treats as idle**: the handler's `idle_since` changes only in two ways — it is set, to the
+current time, by the engine's idle announcement (`write_to_event_stream(WorkflowIdleEvent)`), which the engine
+makes only when the reducer sees no work (`C03_idle_reducer_sound`); or it is cleared by a `send_event` (to the
+run in memory, or after a reload).  Nothing else marks a run idle. -/
+theorem C03_server_idle_mark_origin (s s' : Lifecycle.S) (a : Lifecycle.Act) (h : Lifecycle.step s a = some s')
+    (hne : s'.idleSince ≠ s.idleSince) :
+    (a = .eMark ∧ s.work = false ∧ s'.idleSince = some s.now) ∨
+      (s'.idleSince = none ∧ ∃ i, a = .sClear i ∨ a = .sRClear i) := by
+  cases a <;> simp only [Lifecycle.step] at h
+  all_goals
+    (repeat' split at h) <;> first
+      | (cases h; done)
+      | (simp only [Option.some.injEq] at h; subst h; first
+          | exact (hne rfl).elim
+          | exact (hne (C03.release_idleSince _ _)).elim
+          | (left; refine ⟨rfl, ?_, rfl⟩; simp_all)
+          | (right; exact ⟨rfl, _, Or.inl rfl⟩)
+          | (right; exact ⟨rfl, _, Or.inr rfl⟩))
+
+/-- **When it releases**: the run leaves the active set (and its control loop is aborted) only in the decision
+step of a `_deferred_release` task that read, under the reload lock, an idle mark `t0` that is at least
+`idle_timeout` old (`GenLifecycle.elapsedTooShort`, the comparison as written in the source). -/
+theorem C03_server_release_needs_mark (s s' : Lifecycle.S) (a : Lifecycle.Act) (h : Lifecycle.step s a = some s')
+    (hrel : s.active = true ∧ s'.active = false) :
+    ∃ j t0, a = .tDecide j ∧ s.lock = some (.tDecide j (some t0)) ∧ s.tau ≤ s.now - t0 := by
+  cases a <;> simp only [Lifecycle.step] at h
+  all_goals
+    (repeat' split at h) <;> first
+      | (cases h; done)
+      | (simp only [Option.some.injEq] at h; subst h; first
+          | (exfalso; simp_all; done)
+          | skip)
+  rename_i j _ j' hj _ t0 heq hel _
+  refine ⟨j, t0, rfl, by rw [heq, hj], ?_⟩
+  simpa [GenLifecycle.elapsedTooShort] using hel
+
+/-- … and the mark a release task decides on is the one in the store when it queried it (under the lock). -/
+theorem C03_server_release_reads_mark (s s' : Lifecycle.S) (j : Nat) (h : Lifecycle.step s (.tQuery j) = some s') :
+    s'.lock = some (.tDecide j s.idleSince) := by
+  simp only [Lifecycle.step] at h
+  split at h
+  · simp only [Option.some.injEq] at h; subst h; rfl
+  · cases h
+
+/-- non-vacuity: an idle announcement marks the run, the timer decides on that mark after `tau`, the run is released -/
+example :
+    let s := Lifecycle.run (Lifecycle.init 5) [.eDone, .eMark, .eSpawn 0, .advance 5, .tAcq 0, .tQuery 0]
+    (s.idleSince, s.active, (Lifecycle.stepD s (.tDecide 0)).active) = (some 0, true, false) := by decide
